@@ -189,6 +189,11 @@ class C09Misc(Harness):
         q = {idx: cx.t(v) for idx, v in zip(idxs, x["q"])}
         if p["op"] == "T":
             t, tt = obs["T"], obs["TT"]
+            dims = lambda a: [len(a), len(a[0]) if a and isinstance(a[0], list) else 0]  # noqa: E731
+            ok = dims(t["freq"]) == shape[::-1] == dims(t["err2"]) and dims(tt["freq"]) == shape == dims(tt["err2"])
+            yield "T_array_shapes", ok
+            if not ok:
+                return
             yield "T_shape", t["shape"] == shape[::-1]
             yield "T_names", t["axis_names"] == NAMES[:2][::-1]
             yield "T_contents", z3.And([cx.eq(t["freq"][j][i], f[(i, j)]) for (i, j) in idxs] + [cx.eq(t["err2"][j][i], q[(i, j)]) for (i, j) in idxs])
